@@ -32,8 +32,13 @@ let first_difference (m : Model.ntype list) (c : Model.ntype list) : string =
 let check_load (b : block) : verdict list =
   let n = match find b "n" with Some [n] -> int_of_string n | _ -> failwith "no n" in
   let lines = match List.assoc_opt "d4" b.files with Some l -> l | None -> failwith "no d4 file" in
+  let big_ids = n > 20000 || List.exists (fun l -> List.exists (fun t ->
+      match int_of_string_opt t with Some v -> abs v > 20000 | None -> false) (split_ws l)) lines in
   match find b "skipped" with
   | Some _ -> bump "skipped_too_big"; [Ok]
+  | None when big_ids && impl b "panic" <> None ->
+    (* the model would build hundreds of thousands of nodes: not run; since repair F11 such files load *)
+    [Diff ("load-vector", "the implementation panicked on a file with feature ids / total_features above 20000 (model not run)")]
   | None ->
     let clines = List.map Conv.coq_string lines in
     let cn = Conv.nat_of_int n in
